@@ -16,16 +16,17 @@ constexpr uint32_t TAG0 = 100;   // application tags stay clear of evilPhase (1,
 
 // Plan drawn by the parent before the fork: every host knows what everybody sends, so the receiver
 // can check exactly-once / per-stream order / payload without talking to the sender.
-struct MsgPlan { int src, dst, tag, thread, kind; uint32_t size; uint32_t seq; uint64_t salt; };
+struct MsgPlan { int src, dst, tag, thread, kind, phase; uint32_t size; uint32_t seq; uint64_t salt; };
 static std::vector<MsgPlan> plan[2];   // per phase
 static int nhosts, nphases, nsenders;
 
 static uint64_t mix(uint64_t x) { x ^= x >> 33; x *= 0xff51afd7ed558ccdULL; x ^= x >> 33; x *= 0xc4ceb9fe1a85ec53ULL; return x ^ (x >> 33); }
-static std::vector<uint8_t> bytes_of(const MsgPlan& m) { std::vector<uint8_t> v(m.size); uint64_t s = m.salt; for (auto& b : v) { s = mix(s + 1); b = (uint8_t)s; } return v; }
+// string payloads (kinds 1, 2) are NUL-free: the wire format of std::string is NUL-terminated (see the local embedded-NUL probe in main)
+static std::vector<uint8_t> bytes_of(const MsgPlan& m) { std::vector<uint8_t> v(m.size); uint64_t s = m.salt; for (auto& b : v) { s = mix(s + 1); b = (uint8_t)s; if (!b && (m.kind == 1 || m.kind == 2)) b = 1; } return v; }
 
 // payload = harness header + typed body of kind k (serialised with the library)
 static void build(grt::SendBuffer& b, const MsgPlan& m) {
-  grt::gSerialize(b, (uint32_t)m.src, (uint32_t)m.tag, m.seq, m.size, (uint32_t)m.kind);
+  grt::gSerialize(b, (uint32_t)m.src, (uint32_t)m.tag, m.seq, m.size, (uint32_t)m.kind, (uint32_t)m.phase);
   std::vector<uint8_t> raw = bytes_of(m);
   switch (m.kind) {
   case 0: grt::gSerialize(b, raw); break;                                                  // vector of POD
@@ -46,11 +47,11 @@ static void check_body(grt::RecvBuffer& rb, const MsgPlan& m, int me) {
   case 2: { std::vector<std::string> vs; grt::gDeserialize(rb, vs); std::string cat; for (auto& s : vs) cat += s; if (cat != std::string(raw.begin(), raw.end()) || vs.size() != (raw.size() + 6) / 7) bad("vector of strings"); break; }
   case 3: { std::pair<uint8_t, double> p; galois::gdeque<uint32_t> dq; grt::gDeserialize(rb, p, dq); if (p.first != (uint8_t)m.salt || p.second != (double)m.seq * 0.5) bad("pair"); size_t i = 0; for (uint32_t x : dq) { uint32_t y; memcpy(&y, &raw[i], 4); if (x != y) bad("gdeque element"); i += 4; } if (i / 4 != raw.size() / 4) bad("gdeque length"); break; }
   case 4: { uint8_t seven; galois::PODResizeableArray<uint64_t> pa; galois::DynamicBitSet bs; grt::gDeserialize(rb, seven, pa, bs); if (seven != 7 || pa.size() != raw.size() / 8) bad("POD array size"); for (size_t i = 0; i < pa.size(); i++) if (memcmp(&pa[i], &raw[i * 8], 8)) bad("POD array element"); if (bs.size() != raw.size() + 1) bad("bitset size"); for (size_t i = 0; i < raw.size(); i++) if (bs.test(i) != (bool)(raw[i] & 1)) bad("bitset bit"); break; }
-  default: { grt::DeSerializeBuffer inner; std::vector<std::pair<uint32_t, uint64_t>> vp; galois::Pair<uint32_t, uint64_t> gp; grt::gDeserialize(rb, inner, vp, gp); std::vector<uint8_t> v; uint64_t salt; grt::gDeserialize(inner, v, salt); if (v != raw || salt != m.salt) bad("nested buffer"); if (vp.size() != raw.size() % 50) bad("vector of pairs"); for (size_t i = 0; i < vp.size(); i++) if (vp[i].first != i || vp[i].second != mix(i)) bad("pair element"); if (gp.first != m.seq || gp.second != m.salt) bad("galois::Pair"); break; }
+  default: { std::vector<std::pair<uint32_t, uint64_t>> vp; galois::Pair<uint32_t, uint64_t> gp; std::vector<uint8_t> v; uint64_t salt; grt::gDeserialize(rb, v, salt, vp, gp);   /* a nested buffer is inlined: its contents are read back directly */ if (v != raw || salt != m.salt) bad("nested buffer"); if (vp.size() != raw.size() % 50) bad("vector of pairs"); for (size_t i = 0; i < vp.size(); i++) if (vp[i].first != i || vp[i].second != mix(i)) bad("pair element"); if (gp.first != m.seq || gp.second != m.salt) bad("galois::Pair"); break; }
   }
   uint32_t end = 0; grt::gDeserialize(rb, end);
   if (end != 0xC0FFEE) bad("end marker (bytes consumed != bytes produced)");
-  if (rb.size() != 0) vsim_fail("c17.payload", "host %d: %zu bytes left after deserialising message (src %d tag %d seq %u)", me, (size_t)rb.size(), m.src, m.tag, m.seq);
+  if (rb.r_size() != 0) vsim_fail("c17.payload", "host %d: %zu bytes left after deserialising message (src %d tag %d seq %u)", me, (size_t)rb.r_size(), m.src, m.tag, m.seq);
 }
 
 static int hostmain(int me) {
@@ -58,32 +59,55 @@ static int hostmain(int me) {
   auto& net = grt::getSystemNetworkInterface();
   if ((int)net.ID != me || (int)net.Num != nhosts) vsim_fail("c17.identity", "host %d sees ID %u of %u", me, net.ID, net.Num);
   galois::setActiveThreads(nsenders);
+  if (me == 0) {
+  { // probe: a std::string with an embedded NUL must round-trip like any other value
+    std::string z("ab\0cd", 5), back; uint32_t tail = 0;
+    grt::SendBuffer b; grt::gSerialize(b, z, (uint32_t)0xC0FFEE); grt::RecvBuffer rb(std::move(b)); grt::gDeserialize(rb, back, tail);
+    if (back != z || tail != 0xC0FFEE) vsim_known("string-embedded-nul", "std::string with an embedded NUL does not round-trip: the wire format is NUL-terminated (Serialize.h gSerializeObj/gDeserializeObj for basic_string)");
+  }
+  // local round trip first (no network): every planned payload must deserialise to itself, at buffer offset 0 and at odd offsets
+  for (int ph = 0; ph < nphases; ph++) for (auto& m : plan[ph]) {
+    if (m.size > 6000) continue;
+    for (int off = 0; off < 3; off++) {
+      grt::SendBuffer b; for (int k = 0; k < off; k++) grt::gSerialize(b, (uint8_t)0xEE);
+      build(b, m);
+      grt::RecvBuffer rb(std::move(b));
+      for (int k = 0; k < off; k++) { uint8_t x; grt::gDeserialize(rb, x); }
+      uint32_t src, tag, seq, size, kind, phase; grt::gDeserialize(rb, src, tag, seq, size, kind, phase);
+      check_body(rb, m, -1 - off);
+    }
+  }
+  }
+  // receiver state for all phases (a message of phase p+1 may legitimately arrive right after fence p)
+  std::map<std::array<int, 3>, uint32_t> nextseq;   // (phase, src, tag) -> next expected sequence number at this host
+  std::vector<int> seen[2]; size_t got[2] = {0, 0}, expect[2] = {0, 0};
+  for (int ph = 0; ph < nphases; ph++) { seen[ph].assign(plan[ph].size(), 0); for (auto& m : plan[ph]) if (m.dst == me) expect[ph]++; }
+  int cur = 0;              // first phase whose fence this host has not passed yet
+  auto drain = [&]() {
+    for (int t = 0; t < MAXTAG; t++) {
+      for (;;) {
+        auto p = net.recieveTagged(TAG0 + t, nullptr);
+        if (!p) break;
+        grt::RecvBuffer& rb = p->second;
+        uint32_t src, tag, seq, size, kind, phase; grt::gDeserialize(rb, src, tag, seq, size, kind, phase);
+        if (src != p->first || tag != TAG0 + (uint32_t)t || phase >= (uint32_t)nphases) vsim_fail("c17.routing", "host %d: message claims (src %u, tag %u, phase %u) but was delivered as (src %u, tag %u)", me, src, tag, phase, p->first, TAG0 + t);
+        if ((int)phase < cur) vsim_fail("c17.late", "host %d: a message of phase %u (src %u tag %u seq %u) arrived after this host had left the fence of that phase", me, phase, src, tag, seq);
+        if ((int)phase > cur) vsim_fail("c17.fence", "host %d: a message of phase %u (src %u tag %u seq %u) arrived although this host has not entered the fence of phase %d yet: its sender left that fence too early", me, phase, src, tag, seq, cur);
+        auto& P = plan[phase];
+        uint32_t& ns = nextseq[{(int)phase, (int)src, (int)tag}];
+        if (seq != ns) vsim_fail(seq < ns ? "c17.duplicate" : "c17.order", "host %d: stream (src %u -> %d, tag %u, phase %u) delivered sequence number %u, expected %u", me, src, me, tag, phase, seq, ns);
+        ns++;
+        int idx = -1; for (size_t i = 0; i < P.size(); i++) if (P[i].src == (int)src && P[i].dst == me && P[i].tag == (int)tag && P[i].seq == seq) idx = (int)i;
+        if (idx < 0) vsim_fail("c17.phantom", "host %d received a message nobody sent in phase %u (src %u tag %u seq %u)", me, phase, src, tag, seq);
+        if (seen[phase][idx]++) vsim_fail("c17.duplicate", "host %d received message (src %u tag %u seq %u) twice", me, src, tag, seq);
+        if (size != P[idx].size || (int)kind != P[idx].kind) vsim_fail("c17.payload", "header of message (src %u tag %u seq %u) corrupted", src, tag, seq);
+        check_body(rb, P[idx], me);
+        got[phase]++;
+      }
+    }
+  };
   for (int ph = 0; ph < nphases; ph++) {
     auto& P = plan[ph];
-    std::map<std::array<int, 2>, uint32_t> nextseq;   // (src, tag) -> next expected sequence number at this host
-    size_t expect = 0; for (auto& m : P) if (m.dst == me) expect++;
-    size_t got = 0;
-    std::vector<int> seen(P.size(), 0);
-    auto drain = [&]() {
-      for (int t = 0; t < MAXTAG; t++) {
-        for (;;) {
-          auto p = net.recieveTagged(TAG0 + t, nullptr);
-          if (!p) break;
-          grt::RecvBuffer& rb = p->second;
-          uint32_t src, tag, seq, size, kind; grt::gDeserialize(rb, src, tag, seq, size, kind);
-          if (src != p->first || tag != TAG0 + (uint32_t)t) vsim_fail("c17.routing", "host %d: message claims (src %u, tag %u) but was delivered as (src %u, tag %u)", me, src, tag, p->first, TAG0 + t);
-          uint32_t& ns = nextseq[{(int)src, (int)tag}];
-          if (seq != ns) vsim_fail(seq < ns ? "c17.duplicate" : "c17.order", "host %d: stream (src %u -> %d, tag %u) delivered sequence number %u, expected %u", me, src, me, tag, seq, ns);
-          ns++;
-          int idx = -1; for (size_t i = 0; i < P.size(); i++) if (P[i].src == (int)src && P[i].dst == me && P[i].tag == (int)tag && P[i].seq == seq) idx = (int)i;
-          if (idx < 0) vsim_fail("c17.phantom", "host %d received a message nobody sent in phase %d (src %u tag %u seq %u)", me, ph, src, tag, seq);
-          if (seen[idx]++) vsim_fail("c17.duplicate", "host %d received message (src %u tag %u seq %u) twice", me, src, tag, seq);
-          if (size != P[idx].size || (int)kind != P[idx].kind) vsim_fail("c17.payload", "header of message (src %u tag %u seq %u) corrupted", src, tag, seq);
-          check_body(rb, P[idx], me);
-          got++;
-        }
-      }
-    };
     // senders: nsenders threads; a stream (src,dst,tag) belongs to one thread so its order is well defined
     galois::on_each([&](unsigned tid, unsigned) {
       for (auto& m : P) {
@@ -96,12 +120,14 @@ static int hostmain(int me) {
       if (tid == 0) net.flush();
     });
     net.flush();
-    while (got < expect) { drain(); if (got < expect) vsim_yield(); }
+    // no step-count deadline here: whether the messages arrive "in time" is decided by the engine's liveness rule
+    // (progress within the budget once faults stop and the schedule is fair), never by a harness counter
+    while (got[ph] < expect[ph]) { drain(); if (got[ph] < expect[ph]) vsim_yield(); }
     // phase separation: nobody leaves the fence before everybody entered it and all phase messages are in
     if (ph % 2 == 0) grt::getHostFence().wait(); else grt::getHostBarrier().wait();
-    drain();
-    if (got != expect) vsim_fail("c17.late", "host %d: %zu message(s) of phase %d arrived after the fence", me, got - expect, ph);
-    for (size_t i = 0; i < P.size(); i++) if (P[i].dst == me && seen[i] != 1) vsim_fail("c17.lost", "host %d: message (src %d tag %d seq %u) was never delivered", me, P[i].src, P[i].tag, P[i].seq);
+    cur = ph + 1;
+    drain();   // anything of phase ph showing up now is late; phase ph+1 may legitimately start arriving
+    for (size_t i = 0; i < P.size(); i++) if (P[i].dst == me && seen[ph][i] != 1) vsim_fail("c17.lost", "host %d: message (src %d tag %d seq %u) was never delivered", me, P[i].src, P[i].tag, P[i].seq);
   }
   vsim_probe_add("messages_checked", 1);
   return 0;
@@ -120,14 +146,14 @@ int main() {
   vsim_enable_fault(VF_HOST_STALL, 0.0002, 0.004);
   vsim_enable_fault(VF_CLOCK_JUMP, 0.001, 0.05);
   vsim_enable_fault(VF_CAS_WEAK, 0.005, 0.1);
-  vsim_set_budget(30000000);
+  vsim_set_budget(4000000);
   size_t total = 0, bytes = 0;
   static const uint32_t sizes[] = {0, 1, 3, 8, 100, 1399, 1400, 1401, 1396, 2800, 5000, 70000};
   for (int ph = 0; ph < nphases; ph++) {
     int count = (int)wl_range(0, tier() ? 120 : 40);
     std::map<std::array<int, 3>, uint32_t> seq; std::map<std::array<int, 3>, int> owner;
     for (int i = 0; i < count; i++) {
-      MsgPlan m; m.src = (int)wl_range(0, nhosts - 1); m.dst = (int)wl_range(0, nhosts - 1);
+      MsgPlan m; m.phase = ph; m.src = (int)wl_range(0, nhosts - 1); m.dst = (int)wl_range(0, nhosts - 1);
       if (m.dst == m.src) { if (nhosts == 1) break; m.dst = (m.src + 1) % nhosts; }
       m.tag = TAG0 + (int)wl_range(0, MAXTAG - 1);
       std::array<int, 3> key{m.src, m.dst, m.tag};
@@ -136,7 +162,7 @@ int main() {
       m.kind = (int)wl_range(0, 5);
       m.size = wl_chance(70) ? sizes[wl_range(0, 11)] : (uint32_t)wl_range(0, 3000);
       if (wl_chance(2)) m.size = (uint32_t)wl_range(1 << 20, 3 << 20);   // several MB
-      if (m.kind == 2 && m.size > 20000) m.size = 20000;
+      if ((m.kind == 2 || m.kind == 4) && m.size > 20000) m.size = 20000;   // per-element work (strings, bitset bits are atomic operations)
       m.salt = vsim_wl_rand();
       bytes += m.size; if (bytes > (40u << 20)) break;
       plan[ph].push_back(m); total++;
